@@ -51,7 +51,7 @@ def ill_classes(s):
 
 
 def in_domain(s):
-    """outside the generated domain: non-ASCII digits anywhere; blanks / '_' inside the charge number; a written zero charge"""
+    """outside the generated domain: non-ASCII digits anywhere; blanks / '_' inside the charge number"""
     if any(ch.isdigit() and not ('0' <= ch <= '9') for ch in s) or any(ord(ch) > 127 and ch.isnumeric() for ch in s):
         return False
     core = strip_affixes(s)
@@ -59,11 +59,6 @@ def in_domain(s):
         if tok in core:
             after = core.split(tok, 1)[1]
             if any(ch in after for ch in ' \t\n\r\x0b\x0c_') or any(ord(ch) > 127 and ch.isspace() for ch in after):
-                return False
-            if after and set(after) == {'0'}:
-                # written zero charge ("Fe+0"): formula_to_composition gives {.., 0: 0} (as the model does) but
-                # Substance.from_formula raises UnboundLocalError in _formula_to_format -- reported defect (notes/C01.md),
-                # excluded from generation until it is fixed or recorded in known_findings.jsonl
                 return False
             break
     return True
